@@ -3,16 +3,34 @@
     the number of invocations stands in for it). *)
 From Coq Require Import String.
 From Cel.Model Require Import Eval.
-From Cel.Proofs Require Import EvalBase NoCrash OrderProofs.
+From Cel.Model Require Import Parser.
+From Cel.Proofs Require Import EvalBase NoCrash OrderProofs CostProofs CtxEquiv.
 Open Scope nat_scope.
 
 (** Without macros the number of host-function invocations of an execution is at most the
     number of call nodes of the program - for every context whose functions have extractor lists
     that touch each argument once (all built-ins do; [args_once]) - so work is linear in the
-    program size, never exponential in the nesting depth.  (The bound for programs with macros,
-    size times the product of the ranges, is not proved: partial.) *)
+    program size, never exponential in the nesting depth.  With macros: [C07_cost_bound]. *)
 Theorem C07_cost_bound_partial : forall e c, once_ctx c -> no_comp e -> loglen (eval c e) <= ncalls e.
 Proof. exact loglen_linear. Qed.
+
+(** With macros: the size of the program times the product of the sizes of the collections its
+    nested comprehensions range over.  [cost B e] counts a comprehension as
+    range + initial value + B * (condition + step) + result; the theorem holds for every
+    invariant [P] of the contexts the program runs in that survives opening a scope and binding
+    the program's own iteration / accumulator variables ([N]), provided every comprehension
+    ranges over at most [B] items in every such context. *)
+Theorem C07_cost_bound : forall (P : ctx -> Prop) (N : str -> Prop) (B : nat),
+  (forall c, P c -> P (push c)) -> (forall c x v, P c -> N x -> P (define c x v)) ->
+  (forall c, P c -> once_ctx c) ->
+  forall e, ranges_le P N B e -> forall c, P c -> loglen (eval c e) <= cost B e.
+Proof. exact cost_bound. Qed.
+
+(** ... in particular, without any assumption on the context, when the ranges are list literals
+    of at most [B] elements. *)
+Theorem C07_cost_bound_literal : forall B e c,
+  once_ctx c -> lit_ranges B e -> loglen (eval c e) <= cost B e.
+Proof. exact cost_bound_literal. Qed.
 
 Theorem C07_default_ctx_once : once_ctx default_ctx.
 Proof. exact default_ctx_once. Qed.
@@ -55,6 +73,32 @@ Proof. reflexivity. Qed.
 Example C07_ex_once : once_ctx fctx.
 Proof. constructor; [reflexivity|exact default_ctx_once]. Qed.
 
+(** Non-vacuity with a range held by a context variable: xs.all(x, xs.exists(y, f(x, y))) over
+    any context binding xs to a list of at most 3 elements makes at most cost 3 = 42 invocations
+    (the bound counts the operator nodes of the two expansions as well; f itself is reached at
+    most 3 * 3 times) - quadratic in the range, not exponential in the nesting. *)
+Definition nested_prog : expr :=
+  match compile $"xs.all(x, xs.exists(y, f(x, y)))" with CExpr e => e | _ => EUnspec end.
+Definition xs_inv (c : ctx) : Prop :=
+  once_ctx c /\ exists l, lookup c $"xs" = Ok (VList l) /\ length l <= 3.
+Example C07_ex_nested : forall c, xs_inv c -> loglen (eval c nested_prog) <= 42.
+Proof.
+  intros c Hc. change 42 with (cost 3 nested_prog).
+  apply (C07_cost_bound xs_inv (fun x => str_eqb $"xs" x = false) 3); [| | | |exact Hc].
+  - intros c0 (H1 & l & H2 & H3). split; [exact H1|]. exists l. now rewrite lookup_push.
+  - intros c0 x v (H1 & l & H2 & H3) Hx. split; [exact H1|]. exists l. now rewrite lookup_define_other.
+  - intros c0 [H _]. exact H.
+  - assert (R : forall d, xs_inv d ->
+                match fst (eval d (EIdent $"xs")) with
+                | Ok v => match range_items v with Some its => length its <= 3 | None => True end
+                | _ => True
+                end).
+    { intros d (_ & l & H2 & H3). rewrite eval_ident. cbn [fst]. rewrite H2. exact H3. }
+    set (p := nested_prog). vm_compute in p. subst p. cbn [ranges_le]. repeat split; try reflexivity; exact R.
+Qed.
+
+Print Assumptions C07_cost_bound.
+Print Assumptions C07_cost_bound_literal.
 Print Assumptions C07_cost_bound_partial.
 Print Assumptions C07_default_ctx_once.
 Print Assumptions C07_call_order.
